@@ -2828,28 +2828,20 @@ func (s *swamp) WriteTreasuresToFilesystem() {
 // ONLY ONE fileWriterHandler can be active at the same time to prevent the concurrent loader writes to the chroniclerInterface
 func (s *swamp) fileWriterHandler(isCloseWrite bool) {
 
-	// ha nem zárási esemény miatt akarjuk a kiírást megvalósítani
+	// Only one fileWriterHandler may run at a time, for the WHOLE take → Write → Sync sequence.
+	// In immediate-write mode (writeInterval 0) every save calls this function, so several handlers
+	// run concurrently. When each of them only snapshotted the queue and wrote later, a handler
+	// holding an OLDER snapshot (e.g. the delete marker of a key) could write AFTER the handler of a
+	// newer save (the re-created key): the file then replays "insert, delete" and the acknowledged
+	// record is gone after the next reload. Callers never hold a treasure guard here (SaveFunction
+	// releases it first), so holding the lock across Write cannot deadlock with the guards taken there.
+	s.writerLock.Lock()
+	defer s.writerLock.Unlock()
+
+	atomic.StoreInt32(&s.isFilesystemWritingActive, 1)
 	if !isCloseWrite {
-
-		func() {
-			s.writerLock.Lock()
-			defer s.writerLock.Unlock()
-			if atomic.LoadInt32(&s.isFilesystemWritingActive) == 1 {
-				return
-			}
-			atomic.StoreInt32(&s.isFilesystemWritingActive, 1)
-		}()
-
-		// feloldjuk az írási lockot mert még nem kell zárjuk a swampot
+		// ha zárási esemény miatt írunk, az aktív írás jelző 1 marad, mert később már nem lesz rá szükség
 		defer atomic.StoreInt32(&s.isFilesystemWritingActive, 0)
-
-	} else {
-
-		// ha zárási esemény miatt akarjuk a kiírást megvalósítani
-		// akkor elég, ha csak beállítjuk az aktív írást, 1-re, mert később
-		// már nem lesz szükség rá.
-		atomic.StoreInt32(&s.isFilesystemWritingActive, 1)
-
 	}
 
 	// if there is no treasures waiting for write, then return
@@ -2857,18 +2849,26 @@ func (s *swamp) fileWriterHandler(isCloseWrite bool) {
 		return
 	}
 
-	var treasuresToWrite []treasure.Treasure
+	var keysToWrite []string
 	s.treasuresWaitingForWriter.Iterate(func(t treasure.Treasure) bool {
 
-		treasuresToWrite = append(treasuresToWrite, t)
+		keysToWrite = append(keysToWrite, t.GetKey())
 		return true
 
 	}, beacon.IterationTypeKey)
 
-	// delete the treasures from the swamp and from the chroniclerInterface too
-	for _, t := range treasuresToWrite {
-		// delete the treasure from the treasuresWaitingForWriter index
-		s.treasuresWaitingForWriter.Delete(t.GetKey())
+	// Take the treasures out of the queue atomically, one by one, and write exactly what was taken:
+	// a save may have replaced the queued object of a key (delete marker → re-created treasure) since
+	// the iteration above; deleting "by key" would then drop the new object without ever writing it.
+	var treasuresToWrite []treasure.Treasure
+	for _, key := range keysToWrite {
+		if t := s.treasuresWaitingForWriter.ShiftOne(key); t != nil {
+			treasuresToWrite = append(treasuresToWrite, t)
+		}
+	}
+
+	if len(treasuresToWrite) == 0 {
+		return
 	}
 
 	// A Write funkció megvárja ameddig az előző write befejezi a munkáját, így nem kell
